@@ -1,6 +1,7 @@
 import PanderaModel.Errors
 import PanderaModel.Lemmas.Cells
 import PanderaModel.Lemmas.Field
+import PanderaModel.Props.C11
 /-!
 # C02 — lazy and eager validation agree; the error report is exact
 -/
@@ -157,6 +158,156 @@ theorem error_counts_sum (es : List Err) (rs : List Reason) (hnd : rs.Nodup)
           omega
     rw [key rs hnd hm, ih']
     simp
+
+/-! ### exactness of the report, whole frame -/
+
+/-- every reported cell of a field is a cell of that field: its label and the value at its position -/
+theorem field_cells_wellformed (T : ScopeTable) (d : Depth) (ctx : Ctx) (spec : ColSpec) (fn : Option String)
+    (phys : DType) (vals : List Val) :
+    ∀ e ∈ fieldErrors T d ctx spec fn phys vals, ∀ c ∈ e.cells, c.col = fn ∧ c.val = vals.getD c.pos .null := by
+  intro e he c hc
+  unfold fieldErrors at he
+  simp only [List.mem_append] at he
+  rcases he with (((he | he) | he) | he) | he
+  · split at he
+    · simp only [List.mem_singleton] at he; subst he; cases hc
+    · cases he
+  · split at he
+    · simp only [List.mem_singleton] at he; subst he
+      have := (mem_cellsAt_iff _ _ _ _).mp hc; exact ⟨this.1, this.2.2⟩
+    · cases he
+  · split at he
+    · simp only [List.mem_singleton] at he; subst he
+      have := (mem_cellsAt_iff _ _ _ _).mp hc; exact ⟨this.1, this.2.2⟩
+    · cases he
+  · unfold dtypeErrs at he
+    split at he
+    · cases he
+    · split at he
+      · simp only [List.mem_singleton] at he; subst he
+        simp only at hc
+        split at hc
+        · have := (mem_cellsAt_iff _ _ _ _).mp hc; exact ⟨this.1, this.2.2⟩
+        · cases hc
+      · cases he
+  · generalize optRuns (if ctx == Ctx.column then T.columnChecks else T.fieldChecks) d = b at he
+    cases b
+    · simp at he
+    · simp only [↓reduceIte] at he
+      unfold checksSteps at he
+      simp only [List.mem_flatten, List.mem_map] at he
+      obtain ⟨l, ⟨p, _, rfl⟩, he⟩ := he
+      unfold checkStep at he
+      split at he
+      · simp only [List.mem_singleton] at he; subst he; cases hc
+      · cases he
+      · simp only [List.mem_singleton] at he; subst he
+        split at hc
+        · unfold dropNullCells at hc
+          have := (mem_cellsAt_iff _ _ _ _).mp (List.mem_filter.mp hc).1; exact ⟨this.1, this.2.2⟩
+        · have := (mem_cellsAt_iff _ _ _ _).mp hc; exact ⟨this.1, this.2.2⟩
+
+/-- **C02 (report, field)** a cell is reported exactly when it is the cell of the field at a row that
+violates a row-level constraint: every offending cell, no conforming cell -/
+theorem field_cells_exact (T : ScopeTable) (ctx : Ctx) (spec : ColSpec) (fn : Option String)
+    (phys : DType) (vals : List Val)
+    (hname : spec.name = none ∨ spec.name = fn)
+    (hdt : ∀ t, spec.dtype = some t → dtypeOkImpl t phys vals = true)
+    (hchecks : ∀ c ∈ spec.checks, runCheck c vals ≠ .raised) (c : Cell) :
+    (∃ e ∈ fieldErrors T .schemaAndData ctx spec fn phys vals, c ∈ e.cells)
+      ↔ (c.col = fn ∧ c.val = vals.getD c.pos .null ∧ C11.fieldRowBad spec vals c.pos) := by
+  constructor
+  · rintro ⟨e, he, hc⟩
+    have hw := field_cells_wellformed T _ ctx spec fn phys vals e he c hc
+    exact ⟨hw.1, hw.2, (C11.field_rows_named T ctx spec fn phys vals hname hdt hchecks c.pos).mp ⟨e, he, c, hc, rfl⟩⟩
+  · rintro ⟨hcol, hval, hbad⟩
+    obtain ⟨e, he, cell, hcell, hpos⟩ :=
+      (C11.field_rows_named T ctx spec fn phys vals hname hdt hchecks c.pos).mpr hbad
+    have hw := field_cells_wellformed T _ ctx spec fn phys vals e he cell hcell
+    have : cell = c := by
+      cases cell; cases c
+      simp only at hpos hw hcol hval
+      simp only [Cell.mk.injEq]
+      exact ⟨hw.1.trans hcol.symm, hpos, by rw [hw.2, hval, hpos]⟩
+    exact ⟨e, he, this ▸ hcell⟩
+
+/-- a reported cell belongs to the frame: a column of the frame under its label with the value at the
+position, or the index under the name of the index component -/
+def cellOfFrame (S : Schema) (P : Frame) (c : Cell) : Prop :=
+  (∃ col ∈ P.cols, c.col = some col.name ∧ c.val = col.vals.getD c.pos .null)
+  ∨ (∃ ix l, S.index = some ix ∧ P.index = [l] ∧ c.col = ix.name ∧ c.val = l.vals.getD c.pos .null)
+
+theorem col?_some {P : Frame} {n : String} {col : Column} (h : P.col? n = some col) : col ∈ P.cols ∧ col.name = n := by
+  unfold Frame.col? at h
+  exact ⟨List.mem_of_find?_eq_some h, by simpa using List.find?_some h⟩
+
+/-- **C02 (report, frame): no conforming cell.** Every cell the lazy run reports for the core checks
+is a cell of the frame, and its row violates a row-level constraint of the schema -/
+theorem frame_report_sound (T : ScopeTable) (S : Schema) (P : Frame) (h : C11.RowLevelOnly S P) (c : Cell) :
+    (∃ e ∈ coreCheckErrors T .schemaAndData S P, c ∈ e.cells) → cellOfFrame S P c ∧ C11.frameRowBad S P c.pos := by
+  rintro ⟨e, he, hc⟩
+  refine ⟨?_, (C11.frame_rows_named T S P h c.pos).mp ⟨e, he, c, hc, rfl⟩⟩
+  unfold coreCheckErrors at he
+  simp only [List.mem_append] at he
+  rcases he with ((he | he) | he) | he
+  · rw [C11.presence_no_cells T _ S P e he] at hc; cases hc
+  · -- joint uniqueness
+    unfold jointUniqueErrors at he
+    split at he
+    · simp only at he
+      split at he
+      · cases he
+      · simp only [List.mem_singleton] at he; subst he
+        simp only [List.mem_flatten, List.mem_map] at hc
+        obtain ⟨l, ⟨col, hcol, rfl⟩, hcell⟩ := hc
+        have hm := (mem_cellsAt_iff _ _ _ _).mp hcell
+        obtain ⟨n, _, hn⟩ := List.mem_filterMap.mp hcol
+        exact Or.inl ⟨col, (col?_some hn).1, hm.1, hm.2.2⟩
+    · cases he
+  · -- columns
+    simp only [List.mem_flatten, List.mem_map] at he
+    obtain ⟨l, ⟨spec, hs, rfl⟩, he⟩ := he
+    unfold columnErrors at he
+    rw [h.noRegex spec hs] at he
+    simp only at he
+    cases hn : spec.name with
+    | none => rw [hn] at he; cases he
+    | some n =>
+      rw [hn] at he
+      simp only at he
+      cases hcol : P.col? n with
+      | none => rw [hcol] at he; cases he
+      | some col =>
+        rw [hcol] at he
+        simp only at he
+        have hw := field_cells_wellformed T _ .column spec (some n) col.dtype col.vals e he c hc
+        have hc2 := col?_some hcol
+        exact Or.inl ⟨col, hc2.1, by rw [hw.1, hc2.2], hw.2⟩
+  · -- index
+    unfold indexPartErrors at he
+    cases hix : S.index with
+    | none => rw [hix] at he; cases he
+    | some ix =>
+      rw [hix] at he
+      obtain ⟨l, hl, _⟩ := h.oneLevel ix hix
+      simp only at he
+      unfold indexErrors at he
+      rw [hl] at he
+      simp only at he
+      unfold relabel at he
+      obtain ⟨e0, he0, rfl⟩ := List.mem_map.mp he
+      simp only [List.mem_map] at hc
+      obtain ⟨c0, hc0, rfl⟩ := hc
+      have hw := field_cells_wellformed T _ .index ix l.name l.dtype l.vals e0 he0 c0 hc0
+      exact Or.inr ⟨ix, l, hix, hl, rfl, hw.2⟩
+
+/-- **C02 (report, frame): every offending row.** A row that violates a row-level constraint is named
+by a reported cell of the frame -/
+theorem frame_report_complete (T : ScopeTable) (S : Schema) (P : Frame) (h : C11.RowLevelOnly S P) (i : Nat)
+    (hbad : C11.frameRowBad S P i) :
+    ∃ e ∈ coreCheckErrors T .schemaAndData S P, ∃ c ∈ e.cells, c.pos = i ∧ cellOfFrame S P c := by
+  obtain ⟨e, he, c, hc, hp⟩ := (C11.frame_rows_named T S P h i).mpr hbad
+  exact ⟨e, he, c, hc, hp, (frame_report_sound T S P h c ⟨e, he, hc⟩).1⟩
 
 end C02
 end Pandera
